@@ -175,8 +175,10 @@ def finish(pid, tier, seed, repo, results, bounded, lean, known, wall, meta):
         cov["samples"] = [dict(note="no obligation discharged in this run")]
     ev = dict(property_id=pid, tier=tier, seed=seed, level=level, coverage=cov,
               assumptions=BUILTIN_ASSUMPTIONS + meta.get("assumptions", []), wall_s=round(wall, 2), violations=violations)
-    os.makedirs(os.path.join(VERIF, "evidence"), exist_ok=True)
-    json.dump(ev, open(os.path.join(VERIF, "evidence", pid + ".json"), "w"), indent=1, default=str)
+    # developer runs against a scratch copy (tools/try_seed.sh) redirect the evidence so that /verif/evidence always describes /repo
+    evdir = os.environ.get("VERIF_EVIDENCE_DIR") or os.path.join(VERIF, "evidence")
+    os.makedirs(evdir, exist_ok=True)
+    json.dump(ev, open(os.path.join(evdir, pid + ".json"), "w"), indent=1, default=str)
     for l in lines:
         print(l)
     print("SUMMARY property=%s tier=%s obligations=%d discharged=%d contracts=%d out_of_reach=%d bounded=%s violations=%d undecided=%d broken=%d wall=%.1fs" % (
